@@ -47,13 +47,16 @@ def build_track(mido, ti, spec):
 def _build_track(mido, ti, spec):
     t = mido.MidiTrack()
     for pos, (kind, delta) in enumerate(spec):
-        ident = ti * 16 + pos
+        ident = ti * 4096 + pos
         if kind == 'note':
-            m = mido.Message('note_on', note=ident, velocity=1 + pos, time=delta)
+            m = mido.Message('note_on', note=ident & 127,
+                             velocity=(ident >> 7) & 127,
+                             channel=(ident >> 14) & 15, time=delta)
         elif kind == 'tempo':
             m = mido.MetaMessage('set_tempo', tempo=1000 + ident, time=delta)
         elif kind == 'unknown':
-            m = mido.UnknownMetaMessage(0x60, data=(ti, pos), time=delta)
+            m = mido.UnknownMetaMessage(0x60, data=(ti, pos & 255, pos >> 8),
+                                        time=delta)
         else:
             m = mido.MetaMessage('end_of_track', time=delta)
         t.append(m)
@@ -85,24 +88,31 @@ def snapshot(tracks):
              for m in tr] for tr in tracks]
 
 
-def check_one(mido, specs, acc, via_file):
+def check_one(mido, specs, acc, via_file, long=None):
     if acc.evals % 97 == 0:
         failed_merge(mido, acc)
-    if VARIANT[0] == 'plain' and (acc.evals // 3) % 5 == 0 and any(specs):
+    if VARIANT[0] == 'plain' and any(specs) and (
+            (acc.evals // 3) % 5 == 0 if long is None else len(specs[0]) <= 60):
         # the same case with messages rebuilt from dicts (fresh, not interned
         # strings) and with frozen messages
         for v in ('rebuilt', 'frozen'):
             VARIANT[0] = v
             try:
-                check_one(mido, specs, acc, via_file)
+                check_one(mido, specs, acc, via_file, long)
             finally:
                 VARIANT[0] = 'plain'
     tracks = [build_track(mido, ti, sp) for ti, sp in enumerate(specs)]
     exp, total = expected(tracks)
     snap = snapshot(tracks)
     lens = [len(t) for t in tracks]
-    case = {'tracks': [[list(s) for s in sp] for sp in specs],
-            'variant': VARIANT[0]}
+    if long is None:
+        case = {'tracks': [[list(s) for s in sp] for sp in specs],
+                'variant': VARIANT[0]}
+        shown = specs
+    else:
+        case = {'long': list(long), 'variant': VARIANT[0]}
+        shown = (f'{long[0]} tracks of {long[1]} events, deltas {long[2]!r}, '
+                 f'kinds {long[3]!r}')
     variants = [('skip_checks=False', lambda: mido.merge_tracks(tracks)),
                 ('skip_checks=True',
                  lambda: mido.merge_tracks(tracks, skip_checks=True))]
@@ -115,7 +125,7 @@ def check_one(mido, specs, acc, via_file):
             res = fn()
         except Exception as e:
             acc.violation(f'raises/{name}/{type(e).__name__}',
-                          f'{name} on {specs} raised {e!r}', dict(case, via=name))
+                          f'{name} on {shown} raised {e!r}', dict(case, via=name))
             continue
         key = None
         if not isinstance(res, mido.MidiTrack):
@@ -153,7 +163,7 @@ def check_one(mido, specs, acc, via_file):
         if key is not None:
             acc.violation(f'{key}/{name}' + ('' if VARIANT[0] == 'plain'
                                              else '/' + VARIANT[0]),
-                          f'{name} on {VARIANT[0]} tracks {specs}: {what}',
+                          f'{name} on {VARIANT[0]} tracks {shown}: {what[:700]}',
                           dict(case, via=name))
     # history: merge, change one delta IN PLACE (same track and message
     # objects), merge again - the second result must follow the edit
@@ -173,10 +183,11 @@ def check_one(mido, specs, acc, via_file):
                         got.append((now, sig_no_time(m)))
                 if got != exp2 or now != total2:
                     acc.violation(f'stale-after-in-place-edit/{name}',
-                                  f'{name} on tracks {specs}: merged, first '
+                                  f'{name} on tracks {shown}: merged, first '
                                   f'delta += 3 in place, merged again: events '
-                                  f'{got} total {now}, expected {exp2} total '
-                                  f'{total2}', dict(case, via=name))
+                                  f'{str(got)[:300]} total {now}, expected '
+                                  f'{str(exp2)[:300]} total {total2}',
+                                  dict(case, via=name))
                 victim.time = victim.time - 3
             except Exception as e:
                 acc.violation(f'stale-probe-raises/{name}/{type(e).__name__}',
@@ -205,11 +216,51 @@ def failed_merge(mido, acc):
             pass       # accepting it is not this property's business
 
 
+DELTA_FAMILIES = {
+    'zero': lambda ti, pos: 0,
+    'one': lambda ti, pos: 1,
+    'same480': lambda ti, pos: 480,
+    'alt': lambda ti, pos: (0, 5)[pos % 2],
+    'inc': lambda ti, pos: pos,
+    'big': lambda ti, pos: 2 ** 20 + ti,
+    'mixed': lambda ti, pos: (ti * 7 + pos * 3) % 4,
+    'per-track': lambda ti, pos: ti,
+    'late-start': lambda ti, pos: 1000 * ti if pos == 0 else 2,
+}
+KIND_FAMILIES = {
+    'notes': lambda ti, pos, n: 'note',
+    'cycle': lambda ti, pos, n: 'eot' if pos == n - 1 else KINDS[(pos + ti) % 3],
+    'eot-mid': lambda ti, pos, n: 'eot' if pos in (n // 2, n - 1) else 'note',
+    'same-tempo': lambda ti, pos, n: 'tempo' if pos % 2 else 'note',
+}
+LONG_K = (1, 2, 3, 4, 5, 6, 8, 9, 16, 17, 33)
+LONG_L = (5, 6, 7, 8, 10, 16, 17, 50, 257, 1000)
+
+
+def long_spec(k, n, df, kf):
+    d, kd = DELTA_FAMILIES[df], KIND_FAMILIES[kf]
+    return [tuple((kd(ti, pos, n), d(ti, pos)) for pos in range(n))
+            for ti in range(k)]
+
+
 def worker(shard):
     mido = common.import_mido()
     acc = Acc()
     failed_merge(mido, acc)
     kind = shard[0]
+    if kind == 'long':
+        k = shard[1]
+        for n in LONG_L:
+            if k * n > 4500:
+                continue
+            for df in DELTA_FAMILIES:
+                for kf in KIND_FAMILIES:
+                    check_one(mido, long_spec(k, n, df, kf), acc, k * n <= 600,
+                              long=(k, n, df, kf))
+        acc.sample({'tracks': k, 'lengths': list(LONG_L),
+                    'delta_families': list(DELTA_FAMILIES),
+                    'kind_families': list(KIND_FAMILIES)}, cap=1)
+        return acc
     if kind == 'one':
         first, n = shard[1], shard[2]
         for rest in seqs_upto(n - 1):
@@ -246,6 +297,7 @@ def run():
     shards += [('one', s, n1) for s in SYMBOLS]
     shards += [('two', t0, n2) for t0 in seqs_upto(n2)]
     shards += [('three', t0, n3) for t0 in seqs_upto(n3)]
+    shards += [('long', k) for k in LONG_K]
     run_shards(worker, shards, rep)
     rep.coverage['exhaustive'] = True
     rep.coverage['rule'] = (
@@ -253,7 +305,10 @@ def run():
         f'unknown meta, end_of_track}} x delta {{0,1,2}}: every single track '
         f'of length <= {n1}, every pair of tracks of length <= {n2} each, '
         f'every triple of length <= {n3} each, plus empty lists/tracks; each '
-        f'with skip_checks False/True (and through MidiFile.merged_track). '
+        f'with skip_checks False/True (and through MidiFile.merged_track); '
+        f'plus long cases: {list(LONG_K)} tracks x {list(LONG_L)} events each '
+        f'(<= 4500 events in all) x {len(DELTA_FAMILIES)} delta patterns x '
+        f'{len(KIND_FAMILIES)} event-kind patterns. '
         f'Oracle: absolute tick of every non-EOT message, order by (tick, '
         f'track, index), single final EOT, total = longest track, inputs '
         f'unmodified (vars and identity snapshot). Non-trivial = >= 2 '
@@ -265,10 +320,14 @@ def run():
 def check_case(case):
     mido = common.import_mido()
     acc = Acc()
-    specs = [tuple(tuple(s) for s in sp) for sp in case['tracks']]
+    long = tuple(case['long']) if 'long' in case else None
+    if long:
+        specs = long_spec(*long)
+    else:
+        specs = [tuple(tuple(s) for s in sp) for sp in case['tracks']]
     VARIANT[0] = case.get('variant', 'plain')
     try:
-        check_one(mido, specs, acc, True)
+        check_one(mido, specs, acc, True, long)
     finally:
         VARIANT[0] = 'plain'
     return [(k, v[0][1]) for k, v in acc.viol.items()]
